@@ -166,7 +166,7 @@ func genMT(r *vh.Rand) string {
 	b.WriteString(base)
 	for i := r.Intn(3); i > 0; i-- {
 		b.WriteString(r.Pick(";", "; ", " ;"))
-		b.WriteString(r.Pick("charset=us-ascii", "charset=US-ASCII", "charset=utf-8", "charset=us-ascii2", "a=b", "name=\"A b;c\"", "x", "charset=us-ascii "))
+		b.WriteString(r.Pick("charset=us-ascii", "charset=US-ASCII", "charset=utf-8", "charset=us-ascii2", "a=b", "name=\"A b;c\"", "x", "charset=us-ascii ", "x-charset=us-ascii", "mycharset=us-ascii", "a=charset=us-ascii", "name=\"It's B\"", "n='A B'"))
 	}
 	return b.String()
 }
@@ -470,11 +470,11 @@ func genMediatypeString(r *vh.Rand) string {
 		case 2:
 			b.WriteString(r.Pick("Charset=UTF-8", "q=0.8", "Name"))
 		case 3:
-			b.WriteString(r.Pick("\"Quoted String\"", "\"A;B c\"", "\"\"", "=\"X y\""))
+			b.WriteString(r.Pick("\"Quoted String\"", "\"A;B c\"", "\"\"", "=\"X y\"", "\"It's A b\"", "=\"a'B c'D\""))
 		case 4:
 			b.WriteString(r.Pick(" ", "\t", "\n", "  "))
 		case 5:
-			b.WriteString(r.Pick("X", "y", "=", "Z9"))
+			b.WriteString(r.Pick("X", "y", "=", "Z9", "'", "'A B'", "O'Neil X"))
 		default:
 			b.WriteString(r.Pick("\"unterminated", "\""))
 		}
